@@ -40,6 +40,7 @@ def tmpdir():
     return _TMP
 
 
+DATELIKE = ['01.02.25', '10.11.12', '31.12.99', '29.02.24', '1.2.3', '01.02.2025', '5', '0', '-1', '1e3', 'True', 'None', 'nan', ' 7 ', '007', '1;2']
 SPECIAL = [';', '"', '\r', '\n', '\r\n', ',', "'", '\t', ' ', '﻿', ';;', '""', 'a;b', '"q"', 'x\ny', '\\']
 text = st.one_of(
     st.text(alphabet=st.characters(blacklist_categories=('Cs',), blacklist_characters='\x00'), max_size=8),
@@ -72,7 +73,11 @@ def csv_case(draw, max_tasks=7):
         t['end'] = draw(opt_date)
         t['min_start'] = draw(opt_date)
         names = draw(st.sets(st.sampled_from(CUSTOM_NAMES), max_size=3))
-        t['custom'] = {k: draw(st.one_of(st.none(), st.integers(-5, 5), text)) for k in sorted(names)}
+        t['custom'] = {k: draw(st.one_of(st.none(), st.integers(-5, 5), text, st.sampled_from(DATELIKE))) for k in sorted(names)}
+        if draw(st.integers(0, 7)) == 0:
+            t['name'] = draw(st.sampled_from(DATELIKE))
+        if draw(st.integers(0, 7)) == 0:
+            t['resource'] = draw(st.sampled_from(DATELIKE))
     spec['links'] = [[mp[u], mp[v]] for u, v in spec['links']]
     return dict(spec=spec)
 
